@@ -55,21 +55,25 @@ SPEC = {
     "trusted_base": ["TypedValue (sequential): translator harness/c06/xlate (go/ast -> statement language, ~500 lines) and the language's semantics "
                      "Hive/Model/TypedCode.lean; the hand-written model Hive/Model/TypedValue.lean is PROVED equal to the translated method bodies "
                      "(C06_code_refines_model); translator + semantics are cross-checked on every run by executing the translated term against the real code",
-                     "hand-written models Hive/Model/TypedStore.lean, TypedConc.lean, TypedRef.lean of kvstore/typedstore.go, the lock protocol and TypedValue[*T], "
+                     "TypedStore point methods (Get/Has/Set/Delete/DeletePrefix/Clear): translator harness/c06/xlate_ts (~400 lines) and semantics Hive/Model/TypedStoreCode.lean; "
+                     "the hand-written model is PROVED equal to the translated bodies (C06_store_code_refines_model), cross-checked on every run against the real code",
+                     "hand-written models Hive/Model/TypedStore.lean (Iterate/IterateKeys), TypedConc.lean, TypedRef.lean of kvstore/typedstore.go, the lock protocol and TypedValue[*T], "
                      "tied by differential execution with fault injection (harness/c06), regenerated skeletons / type facts and the lock-discipline obligation",
                      "Go toolchain, compiled Lean driver, Go's sync.RWMutex semantics as written in Hive/Model/TypedConc.lean"],
     "modelled": ["regenerated: the bodies of TypedValue.Get/Has/Compute/Set/Delete/cachedValue as terms of a statement language (conditions, early returns, nil dereferences, "
                  "which variable each call result lands in / each condition tests, error wrapping and ierrors.Is, store calls by position, store reporting its errors bare or wrapped)",
                  "TypedValue Get/Has/Set/Delete/Compute over one raw key with both cache fields, per-call fault vector, call trace",
                  "reference-typed V (TypedValue[*T]): generic model at V := Ref with a heap-dependent codec (Hive/Model/TypedRef.lean); caller mutations change the heap only; cache coherence / transparency are claimed only while the caller has not mutated a cached object (aliasing assumption), last-written and failure atomicity always",
-                 "TypedStore Get/Has/Set/Delete/Iterate/IterateKeys/DeletePrefix/Clear over a sorted association list",
+                 "TypedStore Get/Has/Set/Delete/Iterate/IterateKeys/DeletePrefix/Clear over a sorted association list; the six non-iterating methods also regenerated from the source as terms of a second statement language",
+                 "key codecs: fixed-width uint16 and a variable-length, not prefix-free one; value codecs: 8-byte uint64 and one with a zero-length encoding of 0",
+                 "stores whose failing write took effect (dirty failures): stepD; error reporting and cache untouched proved, coherence loss shown by a witness",
                  "protocol: RLock fast path / Lock slow path with read, store-write and cache-update micro-steps; RLock without writer preference (more schedules)",
                  "upgrade window: the translated Get/Has split at their first Lock() into fast part / slow part, each run alone from arbitrary states; the code-level protocol over them equals the protocol model",
                  "ghost-clock protocol model (invocation and linearization times) for the real-time order of the log; linearizability judge over timed histories",
                  "ownership: the compute function's argument is the value this call decoded (a fresh object for reference types), never the cached one",
                  "a panicking compute function is modelled as a failing one (nothing changes); the lock-discipline walk requires a deferred release around foreign calls",
                  "uint64 wrap-around of the counter workload after 2^64 increments is NOT modelled (Nat)",
-                 "a failing store call is assumed to have no effect on the store; partial writes of the underlying store are not modelled"],
+                 "apart from the dirty write failures above a failing store call is assumed to have no effect on the store (partial effects of DeletePrefix/Clear/Iterate are not modelled)"],
     "manifest": {
         "text": "Theorems over every history and every fault vector (which store call / codec call / compute function fails, including natural codec failures and ErrTypedValueNotChanged): cache always equals the store (C06_cache_coherent), no fault => results equal the raw key under the codec (C06_transparent), the stored bytes are the encoding of the last successful write (C06_stored_is_last_written), every failed call is reported with its own error and leaves store and cache unchanged (C06_failure_atomic); the same for TypedStore incl. iteration stopping at the first decode error (C06_store_*); protocol theorem over every schedule and thread count: write sections are mutually exclusive and the log of completed operations is a run of the sequential machine, hence no lost update and readers see only written values (C06_serialised*). The TypedValue model is re-derived from the source on every run: the method bodies are translated to a statement language and proved equal to the model in every state (C06_code_refines_model), and their lock discipline is decided (C06_code_lock_discipline, incl. deferred release around foreign calls); the slow paths of Get/Has, run alone from EVERY state (the state after another caller filled the cache in the RUnlock->Lock window), equal the sequential step and the code-level protocol equals the protocol model (C06_code_upgrade_window, C06_code_serialised); the protocol with a ghost clock logs every call at a point between its invocation and return, in log order (C06_linearizable), is deadlock-free (C06_no_deadlock); Compute hands its function the value it decoded itself, never the cached object (C06_compute_ownership). Models are re-validated on every run by a line-by-line differential run against the real code behind a fault-injecting KVStore and failing codecs (result, call trace, raw bytes and both cache fields compared after every step), an independent in-Go property oracle, and a concurrent part decided by the Lean trace predicates: stress rounds, forced schedules (writer parked in the store, reader parked in its store call, readers pending behind a Compute parked in its callback so that they all miss the fast path and queue for the write lock) and free-running timed histories checked for linearizability (linOk, C06_linearizable_judge).",
         "note": "Trusted: Lean kernel; the three hand-written models (tie = differential execution: every single-fault position per op kind x cache state x raw state enumerated, random histories, concurrent stress); sync.RWMutex semantics; failing store calls assumed effect-free.",
